@@ -332,7 +332,9 @@ def prepare_exception(
     :param coder: serializer with `loads` and `dumps`
     :return: serializable exception
     """
-    SEEN_EXCEPTIONS_CACHE.clear()
+    # No reset of SEEN_EXCEPTIONS_CACHE here: every entry is removed again by
+    # the call that added it, and a nested call (an exception argument that
+    # stores a result itself) must not drop the path of the call it runs in.
     return _prepare_exception(exc, coder)  # type: ignore
 
 
